@@ -35,6 +35,9 @@ def goals(tier):
     return ["triple:" + t["name"] for t in kitgen.TRIPLES] + ["chain-3", "empty-placeholder", "product-rotated", "next-level-assembly", "two-level"]
 
 
+_KEEP = []
+
+
 def typed(cls, s):
     e = cls(CircularRecord(Seq(s), id="p"))
     if not e.is_valid():
@@ -190,6 +193,15 @@ def run_unit(unit, st, tier):
         if prod is None:
             continue
         st.goal("triple:" + name)
+        # typed wrappers of the unrotated vector and of the unrotated product stay alive while their rotations are explored
+        built0 = scenario_strings(t, fill, ph, k, variant)
+        for cls_, s_ in ((gen.class_by_name(t["vector"]), built0[0]), (gen.class_by_name(t["next"]), prod)):
+            e_ = cls_(CircularRecord(Seq(s_), id="alive"))
+            try:
+                e_.is_valid()
+            except Exception:
+                pass
+            _KEEP.append(e_)
         if k == 3:
             st.goal("chain-3")
             st.nontrivial += 1
